@@ -51,7 +51,12 @@ LatestValue    == \A i \in 1..Len(dn) : <<dn[i].kind, dn[i].val>> = latest[dn[i]
 LookupAgrees   == \A t \in TyNames : DnGet(dn, t) = (IF stamp[t] > 0 THEN [k |-> "some", e |-> dn[IdxOf(dn, t)]] ELSE [k |-> "none"])
 EncodedOrder   == Len(Encoded(dn)) = Len(dn) /\ \A i \in 1..Len(dn) : Encoded(dn)[i].ty = dn[i].oid
 
-Histories == [1..MaxOps -> Ops]
+(* quick: every history of 4 operations over 3 types; thorough: every history of 5 operations over the 3 types *)
+(* plus every history of 4 operations over the 4 types (the fourth is a custom type carrying the OID of a     *)
+(* standard one)                                                                                              *)
+Types3 == { <<"2.5.4.3", "2.5.4.3">>, <<"2.5.4.10", "2.5.4.10">>, <<"custom:1.2.3.4", "1.2.3.4">> }
+Ops3 == { [op |-> "push", e |-> Ent(t[1], t[2], v[1], v[2])] : t \in Types3, v \in Vals } \cup { [op |-> "remove", e |-> Ent(t[1], t[2], "", "")] : t \in Types3 }
+Histories == IF Quick THEN [1..4 -> Ops3] ELSE [1..5 -> Ops3] \cup [1..4 -> Ops]
 Emit == IF TLCGet("stats").generated >= 0 /\ "CASES_OUT" \in DOMAIN IOEnv
         THEN ndJsonSerialize(IOEnv.CASES_OUT, SetToSeq({[grp |-> "dn", ops |-> h] : h \in Histories}))
              /\ PrintT(<<"CASES", Cardinality(Histories)>>)
